@@ -8,7 +8,7 @@
    window lo < hi, and p is an element of the preselected window.  c_miss (which chunks are absent) and c_dat
    (what was stored) are arbitrary. *)
 From Coq Require Import ZArith List Bool.
-From KV Require Import Base.Sx Model.Prune Model.LostMap Proofs.PruneP Proofs.LostMapP Proofs.LostMapNdP Proofs.C06P.
+From KV Require Import Gen.Generated Base.Sx Model.Prune Model.LostMap Proofs.PruneP Proofs.LostMapP Proofs.LostMapNdP Proofs.C06P.
 Import ListNotations.
 Open Scope Z_scope.
 
@@ -101,3 +101,13 @@ Theorem C06_cfg_ok_satisfiable : cfg_ok ex_cfg [1; 2; 1] /\
   model_flags ex_cfg [0; 2; 1] = stored ex_cfg A_FLAGS [0; 2; 1] /\ model_vis ex_cfg [0; 2; 1] <> 0.
 Proof. exact (conj ex_cfg_ok ex_cfg_values). Qed.
 Print Assumptions C06_cfg_ok_satisfiable.
+
+(* The model's loop conditions of _prune_chunks, the fill values and the OR-ed mask are those found in the current
+   source by the translator (katdal/chunkstore.py, katdal/vis_flags_weights.py; fail-closed on any other shape). *)
+Theorem C06_model_matches_translated_source :
+  (forall c start, gen_prune_front_drop c start = (c <=? start)) /\
+  (forall c shape stop, gen_prune_back_drop c shape stop = (c <=? shape - stop)) /\
+  gen_flags_missing_fill = DATA_LOST /\ gen_default_fill = 0 /\ gen_lost_or_mask = DATA_LOST /\
+  gen_intersect_old_is_flags = true.
+Proof. exact generated_agree. Qed.
+Print Assumptions C06_model_matches_translated_source.
